@@ -164,7 +164,7 @@ pub struct Budget {
     pub pair_cap: u32,
 }
 
-pub fn budget(mode: PlanMode, thorough: bool) -> Budget {
+pub fn budget(mode: PlanMode, thorough: bool, check: &str) -> Budget {
     let (p, s, c) = match mode {
         PlanMode::Base => (8, 8, 200),
         PlanMode::Barrier => (8, 12, 200),
@@ -175,6 +175,10 @@ pub fn budget(mode: PlanMode, thorough: bool) -> Budget {
         PlanMode::Cancel => (6, 6, 200),
         PlanMode::Agree => (6, 4, 200),
     };
+    if thorough && check == "C04" {
+        // the thorough `pos` slice enumerates all 1364 depth profiles in all four families (5576 programs)
+        return Budget { plans: p * 2, scheds: s * 2, pair_cap: c };
+    }
     if thorough {
         match mode {
             // enumerating modes grow with the number of positions: variants x2-3 (plans > 1), schedules x2
@@ -1136,7 +1140,7 @@ fn run_cmd(progs: &[&'static Prog], args: &[String]) {
     let max_fail: usize = arg(args, "--max-fail").and_then(|s| s.parse().ok()).unwrap_or(4);
     let mode = if check == "C10c" { PlanMode::Cancel } else { mode_of(&check) };
     let check_name: &str = if check == "C10c" { "C10" } else { &check };
-    let mut b = budget(mode, tier == "thorough");
+    let mut b = budget(mode, tier == "thorough", check_name);
     b.plans = ((b.plans as f64) * scale).ceil().max(1.0) as u32;
     b.scheds = ((b.scheds as f64) * scale).ceil().max(1.0) as u32;
     let t0 = std::time::Instant::now();
